@@ -183,8 +183,9 @@ func Run(bin string, c Cmd) Result {
 			break
 		}
 	}
-	// a panic inside a String / Error method is recovered by fmt and printed in place of the value
-	if bytes.Contains(r.Stdout, []byte("(PANIC=")) || bytes.Contains(r.Stderr, []byte("(PANIC=")) {
+	// a panic inside a String / Error method is recovered by fmt and printed in place of the value: in a result that is
+	// garbage passed on as data (inside a diagnostic of a run that fails properly it is only an ugly message)
+	if bytes.Contains(r.Stdout, []byte("(PANIC=")) {
 		r.Panic = true
 	}
 	return r
